@@ -52,7 +52,8 @@ Resolve(h, env, in) ==
          IF i = 0 THEN [k |-> "Nop"]
          ELSE [k |-> "AppWhoAreYou", a |-> env.wru[i].a, n |-> env.wru[i].n, rec |-> RecOf(Get(in, "rec", "none"))]
     [] in.k = "PeerRandom" -> [k |-> "msg", from |-> in.from, src |-> in.claim, key |-> "none", n |-> Name("m", env.nm + 1), msg |-> [t |-> "junk"]]
-    [] in.k = "PeerWhoAreYou" -> [k |-> "way", from |-> in.from, echo |-> in.echo, seq |-> Get(in, "seq", 1), key |-> WayKey(h, env, in)]
+    [] in.k = "PeerWhoAreYou" -> [k |-> "way", from |-> in.from, echo |-> in.echo, seq |-> Get(in, "seq", 1), key |-> WayKey(h, env, in),
+                                  party |-> in.party, claim |-> Get(in, "claim", in.party)]
     [] in.k = "PeerHandshake" ->
          LET cands == {i \in 1..Len(env.froml) : env.froml[i].id = in.claim /\ (Get(in, "chal", "last") = "last" \/ env.froml[i].idn = in.chal)}
              exact == {i \in cands : env.froml[i].sock = in.from}
@@ -66,7 +67,12 @@ Resolve(h, env, in) ==
          LET kid == IF Get(in, "key", "cur") = "cur" THEN CurKid(env, in.party) ELSE in.key IN
          IF kid = "none" \/ ClaimOf(env, kid) = "none" THEN [k |-> "Nop"]
          ELSE [k |-> "msg", from |-> in.from, src |-> ClaimOf(env, kid), key |-> kid, n |-> Name("m", env.nm + 1), msg |-> Msg(in.msg)]
-    [] in.k = "Replay" -> IF in.idx \in 1..Len(env.inj) THEN [env.inj[in.idx] EXCEPT !.from = in.from] ELSE [k |-> "Nop"]
+    [] in.k = "Replay" -> IF in.idx \in 1..Len(env.inj)
+                          THEN LET x == env.inj[in.idx] IN
+                               \* a WHOAREYOU presented again (possibly from another socket): whether its author can derive the keys is decided now
+                               IF x.k = "way" THEN [x EXCEPT !.from = in.from, !.key = WayKey(h, env, [party |-> x.party, claim |-> x.claim, echo |-> x.echo, from |-> in.from])]
+                               ELSE [x EXCEPT !.from = in.from]
+                          ELSE [k |-> "Nop"]
     [] in.k = "Reflect" -> IF in.idx \in 1..env.ncap THEN [k |-> "frame", from |-> in.from] ELSE [k |-> "Nop"]
     [] in.k = "PeerForget" -> [k |-> "Nop"]
     [] in.k = "Advance" -> [k |-> "Advance", ticks |-> in.ticks]
@@ -106,5 +112,6 @@ EnvIn(env, in, rin) ==
     [] in.k \in {"Replay", "Reflect"} /\ rin.k # "Nop" -> [env EXCEPT !.inj = Append(@, rin)]
     [] in.k = "PeerForget" -> [env EXCEPT !.sess = SelectSeq(@, LAMBDA s : s.party # in.party)]
     [] OTHER -> env
-EnvOut(env, in, h2) == ObsEv(ObsTx(env, h2.tx, in), h2.ev)
+\* (the author of a WHOAREYOU that is presented again is the party that made it)
+EnvOut(env, in, h2) == ObsEv(ObsTx(env, h2.tx, IF in.k = "Replay" /\ in.idx \in 1..Len(env.inj) THEN env.inj[in.idx] ELSE in), h2.ev)
 =============================================================================
